@@ -193,6 +193,65 @@ def run_file(item):
     return res
 
 
+def run_large(item):
+    """One long channel (70 000 values over 4 segments, beyond 2^16): size thresholds - block-wise processing, index widths -
+    sit at powers of two, far outside the small family.  Stepped slices over a grid of starts / stops / steps, windows and
+    indices around every power of two from 2^8 to 2^16 and around the segment boundaries; oracle as everywhere in C04."""
+    which, seed = item
+    n = 17500
+    if which == 'contiguous':
+        hist = [G.seg([(F.A, ['FULL', 'Int32', n]), (F.B, ['FULL', 'Int16', 3])], chunks=1) for _ in range(4)]
+    elif which == 'interleaved':
+        hist = [G.seg([(F.A, ['FULL', 'Int32', n // 2]), (F.B, ['FULL', 'Int16', n // 2])], chunks=2, interleaved=True) for _ in range(4)]
+    else:
+        hist = [G.seg([(F.A, ['FULL', 'Int32', 3500]), (F.B, ['FULL', 'Int16', 1])], chunks=5)] + [G.seg([], meta=False, chunks=5) for _ in range(3)]
+    data = G.encode(hist, seed=seed)[0]
+    res = {'counters': {'files': 1, 'ops': 0, 'nontrivial': 1, 'gap_files': 0, 'truncated_files': 0}, 'outcomes': {}, 'violations': [], 'samples': []}
+    eager = H.TdmsFile.read(io.BytesIO(data))
+    base = eager['g']['a'][:]
+    L = len(base)
+    lazy = H.TdmsFile.open(io.BytesIO(data))
+    bad = []
+    try:
+        for mode, ch in (('lazy', lazy['g']['a']), ('eager', eager['g']['a'])):
+            marks = sorted(set([2 ** k for k in range(8, 17)] + [n, 2 * n, 3 * n, L]))
+            for start in (None, 1, 16383, 16385, 40000, -5):
+                for stop in (None, 16384, 65537, L - 1, -16385):
+                    for step in (2, 3, 5, 7, 1000, 4096, 16384, 16385, -1, -2, -3, -7, -1000, -16385):
+                        res['counters']['ops'] += 1
+                        exp = base[start:stop:step]
+                        r = H.guarded(ch.__getitem__, slice(start, stop, step))
+                        if r[0] != 'ok' or not eq(r[1], exp):
+                            bad.append(('slice-mismatch' if r[0] == 'ok' else 'slice-raised', mode, ['slice', start, stop, step], show(exp),
+                                        show(r[1]) if r[0] == 'ok' else 'raised %s: %s' % (r[1], r[2])))
+            for b in marks:
+                for off, ln in ((b - 2, 5), (b - 1, 1), (b, 2), (max(0, b - 3), None)):
+                    if off > L:
+                        continue
+                    res['counters']['ops'] += 1
+                    exp = base[off:] if ln is None else base[off:off + ln]
+                    r = H.guarded(ch.read_data, off, ln)
+                    if r[0] != 'ok' or not eq(r[1], exp):
+                        bad.append(('window-mismatch' if r[0] == 'ok' else 'window-raised', mode, ['read_data', off, ln, True], show(exp),
+                                    show(r[1]) if r[0] == 'ok' else 'raised %s: %s' % (r[1], r[2])))
+                for i in (b - 1, b, b + 1, -b):
+                    if not -L <= i < L:
+                        continue
+                    res['counters']['ops'] += 1
+                    r = H.guarded(ch.__getitem__, i)
+                    if r[0] != 'ok' or H.norm_scalar(r[1]) != H.norm_scalar(base[i]):
+                        bad.append(('index-mismatch' if r[0] == 'ok' else 'index-raised', mode, ['index', i], repr(H.norm_scalar(base[i])),
+                                    repr(H.norm_scalar(r[1])) if r[0] == 'ok' else 'raised %s: %s' % (r[1], r[2])))
+    finally:
+        lazy.close()
+    res['outcomes']['clean' if not bad else 'deviates'] = 1
+    for (k, mode, op, exp, got) in bad[:6]:
+        res['violations'].append({'case': {'large': which, 'seed': seed, 'op': op, 'mode': mode}, 'expected': exp[:200], 'observed': got[:200],
+                                  'signature': {'kind': k, 'mode': mode, 'elem': 'large-' + which, 'gap_segment_without_channel': False,
+                                                'truncated': False, 'raw_ts': False}})
+    return res
+
+
 def files(tier):
     out = []
     for kind in F.F4_KINDS:
@@ -229,7 +288,7 @@ def run(ctx):
     items = [(k, o, ctx.tier, ctx.seed, True) for k, o in fl]
     # largest files first for better load balance
     items.sort(key=lambda it: -sum((o[0] * o[1]) if isinstance(o, tuple) else 0 for o in it[1]))
-    m = merge(ctx.map(run_file, items, chunksize=1))
+    m = merge(ctx.map(run_file, items, chunksize=1) + ctx.map(run_large, [(w, ctx.seed) for w in ('contiguous', 'interleaved', 'multichunk')]))
     c = m['counters']
     vac = []
     if not c.get('gap_files'):
@@ -245,6 +304,14 @@ def run(ctx):
 
 
 def replay(case):
+    if 'large' in case:
+        r = run_large((case['large'], case.get('seed', 0)))
+        for v in r['violations']:
+            if v['case']['op'] == case['op'] and v['case']['mode'] == case['mode']:
+                return True, v['expected'], v['observed']
+        if r['violations']:
+            return True, r['violations'][0]['expected'], r['violations'][0]['observed']
+        return False, 'NumPy indexing of the full array', 'equal'
     opts = tuple(tuple(o) if isinstance(o, list) else o for o in case['opts'])
     hist = F.f4_build(case['kind'], opts, case.get('seed', 0))
     data = G.encode(hist, seed=case.get('seed', 0))[0]
